@@ -52,9 +52,18 @@ pub fn apply(g: &mut UltraGraph<i64>, op: &[i128]) -> i128 {
     }
 }
 
+// initial capacity; 9001 / 9002 select the other two constructors (ultragraph::new, ultragraph::default)
+fn mk_graph(cap: usize) -> UltraGraph<i64> {
+    match cap {
+        9001 => ultragraph::new(),
+        9002 => ultragraph::default(),
+        c => ultragraph::new_with_matrix_storage(c),
+    }
+}
+
 pub fn run(args: &[i128], cap: usize) -> Vec<i128> {
     let b = args[0] as usize;
-    let mut g: UltraGraph<i64> = ultragraph::new_with_matrix_storage(cap);
+    let mut g: UltraGraph<i64> = mk_graph(cap);
     let mut rets = Vec::new();
     let mut obs = Vec::new();
     for op in args[1..].chunks(4) {
@@ -69,7 +78,7 @@ pub fn run(args: &[i128], cap: usize) -> Vec<i128> {
 // output: return values of the ops, then for every ordered pair (s,t) in 0..B: -1 | len n1..nlen
 pub fn run_spath(args: &[i128], cap: usize) -> Vec<i128> {
     let b = args[0] as usize;
-    let mut g: UltraGraph<i64> = ultragraph::new_with_matrix_storage(cap);
+    let mut g: UltraGraph<i64> = mk_graph(cap);
     let mut out = Vec::new();
     for op in args[1..].chunks(4) {
         out.push(apply(&mut g, op));
@@ -90,7 +99,7 @@ pub fn run_spath(args: &[i128], cap: usize) -> Vec<i128> {
 // then for every probe index: contains_node, value (-1 = none)      [oracle: theorem bulk_add_fresh, Graph/BulkAdd.v]
 pub fn run_big(args: &[i128], cap: usize) -> Vec<i128> {
     let n = args[0] as usize; let v0 = args[1] as i64;
-    let mut g: UltraGraph<i64> = ultragraph::new_with_matrix_storage(cap);
+    let mut g: UltraGraph<i64> = mk_graph(cap);
     let (mut first, mut bad) = (-1i128, 0i128);
     for i in 0..n {
         let k = g.add_node(v0 + i as i64);
